@@ -117,7 +117,26 @@ SignStep ==
   /\ calls' = calls + 1
   /\ UNCHANGED <<mode, vers, cursor, seen, pend, flags, empties>>
 
-Next == ListPage \/ Poll \/ SignStep
+(***************************************************************************)
+(* Wipeout: the service refuses to destroy one version of the page being   *)
+(* processed (any error): the versions before it on the page are already   *)
+(* scheduled for destruction, the wipeout reports the error and stops --   *)
+(* it never reports success while a version it was refused stays usable.   *)
+(***************************************************************************)
+WipeDestroyErr ==
+  /\ mode = "wipe" /\ pc = "loop" /\ cursor < Len(vers)
+  /\ calls' = calls + 1
+  /\ \E n \in 1 .. Min(PageSize, Len(vers) - cursor) :
+       LET page == cursor + 1 .. cursor + n
+           dest == {i \in page : Destroyable(vers[i])}
+       IN \E k \in dest :
+            /\ vers' = [i \in DOMAIN vers |-> IF i \in dest /\ i < k THEN "DESTROY_SCHEDULED" ELSE vers[i]]
+            /\ seen' = seen \cup page
+            /\ hist' = Append(Append(hist, [op |-> "List", n |-> n]), [op |-> "DestroyErr", n |-> k])
+  /\ pc' = "done" /\ ret' = "err"
+  /\ UNCHANGED <<mode, flags, cursor, pend, empties>>
+
+Next == ListPage \/ Poll \/ SignStep \/ WipeDestroyErr
 Spec == Init /\ [][Next]_vars /\ WF_vars(Next)
 
 (***************************************************************************)
